@@ -38,7 +38,7 @@ pub fn fused_rules(e: &Engine) -> usize {
     n
 }
 
-fn blocker_answer(b: &Blocker, res: &ResourceStorage, rq: &Request) -> Answer {
+pub fn blocker_answer(b: &Blocker, res: &ResourceStorage, rq: &Request) -> Answer {
     let r = b.check(rq, res);
     Answer {
         matched: r.matched,
